@@ -14,11 +14,11 @@ Record Inv2 (s : st) : Prop := {
           | _ => True end;
   k_dur : up s = USusp ->
           match kp s with
-          | KNow | KArm | KHandle | KGon | KStore | KChk | KStake | KSgoff true | KSrun => kdur s = armed_of (ud s)
+          | KNow | KArm | KHandle | KGon | KReg | KStore | KChk | KStake | KSgoff true | KSrun => kdur s = armed_of (ud s)
           | _ => True end;
   k_dl : up s = USusp ->
          match kp s with
-         | KArm | KHandle | KGon | KStore | KChk | KStake | KSgoff true | KSrun =>
+         | KArm | KHandle | KGon | KReg | KStore | KChk | KStake | KSgoff true | KSrun =>
              match kdur s with
              | Some a => exists t, kdl s = Some t /\ tcall s + a <= t
              | None => kdl s = None /\ hnd s = None end
@@ -35,7 +35,7 @@ Record Inv2 (s : st) : Prop := {
             | None => True end;
   h_entry : up s = USusp ->
             match kp s with
-            | KHandle | KGon | KStore | KChk =>
+            | KHandle | KGon | KReg | KStore | KChk =>
                 forall i, hnd s = Some i -> exists t, kdl s = Some t /\ t <= tdl s i
             | _ => True end;
   h_dl : forall i, hnd s = Some i -> exists c, call_deadline s = Some c /\ c <= tdl s i;
@@ -135,7 +135,7 @@ Ltac cl2 :=
 
 Lemma inv2_step s a s' : Inv1 s -> Inv2 s -> stepF s a = Some s' -> Inv2 s'.
 Proof.
-  intros [Ipl Ihun Ihcn Ihtm Irun Isusp Iwk [Inn Ine] Ipre Icd] [Tn Tf Kt Kd Kl Kp Ka Hs He Hd Wd] H.
+  intros [Ipl Ihun Ihcn Ihtm Irun Isusp Iwk [Inn Ine] Ipre Icd ((Id1 & Id2 & Id3 & Id4) & Iok & Itn)] [Tn Tf Kt Kd Kl Kp Ka Hs He Hd Wd] H.
   destruct a.
   all: step_inv H.
   all: pre Ipl.
